@@ -713,7 +713,10 @@ def main():
     ap = argparse.ArgumentParser()
     ap.add_argument("--tier", default="quick")
     ap.add_argument("--only", default=None)
+    ap.add_argument("--as-property", default=None,
+                    help="re-run the aliasing (AL) obligations under another property id: no evidence file, summary line on stdout")
     a = ap.parse_args()
+    PID = a.as_property or "C04"
     t0 = time.time()
     fs = all_functions()
     if a.only:
@@ -737,12 +740,15 @@ def main():
     with mp.Pool(int(os.environ.get("VERIF_JOBS", "16"))) as pool:
         nres = pool.map(nport_task, ntasks, chunksize=1)
     obs += [o for r in nres for o in r]
+    if a.as_property:
+        # keep the in-place obligations (and anything that prevented them from being generated)
+        obs = [o for o in obs if o["ok"] is None or re.search(r"(^| )AL( |$)", o["obligation"])]
     infra = [o for o in obs if o["ok"] is None]
     failed = [o for o in obs if o["ok"] is False]
     good = [o for o in obs if o["ok"]]
     vio_lines = []
     if failed:
-        rdir = os.path.join(VERIF, "replay", "C04")
+        rdir = os.path.join(VERIF, "replay", PID)
         os.makedirs(rdir, exist_ok=True)
         lib = build_shared_lib()
         byf = {}
@@ -773,10 +779,10 @@ def main():
                 wit = None
             path = os.path.join(rdir, f + ".json")
             with open(path, "w") as fp:
-                json.dump(dict(property="C04", function=f, failed_obligations=os_, numeric_witness_on_real_code=wit,
+                json.dump(dict(property=PID, function=f, failed_obligations=os_, numeric_witness_on_real_code=wit,
                                verifier="slvc (sympy %s)" % sp.__version__), fp, indent=1)
-            vio_lines.append("VIOLATION property=C04 replay=%s obligation=%s:%s%s" % (
-                path, f, os_[0]["obligation"], "" if wit else " no-failing-input-found"))
+            vio_lines.append("VIOLATION property=%s replay=%s obligation=%s:%s%s" % (
+                PID, path, f, os_[0]["obligation"], "" if wit else " no-failing-input-found"))
     infra = [o for o in obs if o["ok"] is None]
     failed = [o for o in obs if o["ok"] is False]
     ev = dict(
@@ -805,8 +811,13 @@ def main():
                      "linear kernels (_vnacommon_mldivide/mrdivide/minverse) by exact contract (X = A^-1 B etc.); their numerics are C19",
                      "n >= 3: instances only (bounded); numerical behaviour at singular inputs is not covered"],
         wall_s=round(time.time() - t0, 1), violations=len(failed))
-    os.makedirs(os.path.join(VERIF, "evidence"), exist_ok=True)
-    json.dump(ev, open(os.path.join(VERIF, "evidence", "C04.json"), "w"), indent=1)
+    if a.as_property:
+        print("SLVC-SUMMARY " + json.dumps(dict(obligations=len(obs) - len(infra), discharged=len(good),
+                                                functions=sorted(set(o["function"] for o in obs)),
+                                                solver_s=round(sum(o.get("seconds", 0) for o in obs), 1))))
+    else:
+        os.makedirs(os.path.join(VERIF, "evidence"), exist_ok=True)
+        json.dump(ev, open(os.path.join(VERIF, "evidence", "C04.json"), "w"), indent=1)
     print("C04 tier=%s functions=%d obligations=%d discharged=%d wall=%.0fs" % (a.tier, len(fs), len(obs) - len(infra), len(good), time.time() - t0))
     for o in infra:
         print("INFRA: %s: %s" % (o["function"], o["residual"]))
